@@ -26,18 +26,18 @@ impl Pager {
 }
 
 /// THE FRAME CONDITION OF C18.  Between `o` (before) and `n` (after) a writer whose own pages are `own`
-/// (i) kept the allocator well formed, (ii) freed nothing, (iii) did not shrink the file, and
+/// (i) kept the allocator well formed, (ii) freed no page but its own, (iii) did not shrink the file, and
 /// (iv) left every byte of every page that was allocated before the call and is not its own exactly
 /// as it was.  Pages that were free before the call may be taken and written.
-pub open spec fn frame_ok(o: Pager, n: Pager, own: Set<int>) -> bool {
+pub open spec fn frame_ok(o: Pager, n: Pager, own: ISet<int>) -> bool {
     &&& n.wf()
-    &&& forall|q: int| 0 <= q < 65536 && #[trigger] o.bitmap.bit(q) ==> n.bitmap.bit(q)
+    &&& forall|q: int| 0 <= q < 65536 && #[trigger] o.bitmap.bit(q) && !own.contains(q) ==> n.bitmap.bit(q)
     &&& n.bytes().len() >= o.bytes().len()
     &&& forall|i: int| 16384 <= i < o.bytes().len() && o.alloc(i / 8192) && !own.contains(i / 8192)
             ==> #[trigger] n.bytes()[i] == o.bytes()[i]
 }
 
-pub proof fn lemma_frame_trans(a: Pager, b: Pager, c: Pager, own: Set<int>)
+pub proof fn lemma_frame_trans(a: Pager, b: Pager, c: Pager, own: ISet<int>)
     requires frame_ok(a, b, own), frame_ok(b, c, own),
     ensures frame_ok(a, c, own),
 {
@@ -50,7 +50,7 @@ pub proof fn lemma_frame_trans(a: Pager, b: Pager, c: Pager, own: Set<int>)
 }
 
 /// Writing a page that was free at `a` (and so is nobody's stored content) keeps the frame of `a`.
-pub proof fn lemma_frame_fresh(a: Pager, b: Pager, c: Pager, own: Set<int>, p: int)
+pub proof fn lemma_frame_fresh(a: Pager, b: Pager, c: Pager, own: ISet<int>, p: int)
     requires frame_ok(a, b, own), frame_ok(b, c, own.insert(p)), !a.alloc(p),
     ensures frame_ok(a, c, own),
 {
@@ -64,7 +64,7 @@ pub proof fn lemma_frame_fresh(a: Pager, b: Pager, c: Pager, own: Set<int>, p: i
     }
 }
 
-pub proof fn lemma_frame_weaken(a: Pager, b: Pager, own: Set<int>, own2: Set<int>)
+pub proof fn lemma_frame_weaken(a: Pager, b: Pager, own: ISet<int>, own2: ISet<int>)
     requires frame_ok(a, b, own), own.subset_of(own2),
     ensures frame_ok(a, b, own2),
 {
